@@ -381,6 +381,13 @@ func (ex *Exec) coerce(st *State, v *Val, target types.Type) *Val {
 		z := ex.zero(target)
 		return z
 	}
+	if v.Boxed {
+		if _, isPtr := target.Underlying().(*types.Pointer); !isPtr {
+			nv := *v
+			nv.Boxed = false
+			v = ex.deref(st, &nv, token.NoPos)
+		}
+	}
 	if isUntypedConst(v) {
 		if _, isIface := target.Underlying().(*types.Interface); isIface {
 			v = ex.materialize(v, nil)
@@ -771,6 +778,16 @@ func (ex *Exec) addrOf(st *State, e *ast.UnaryExpr) *Val {
 	switch x := x.(type) {
 	case *ast.CompositeLit:
 		return ex.compositeLit(st, x, true)
+	case *ast.Ident:
+		if !ex.inSpec() {
+			if o := ex.Info.ObjectOf(x); o != nil && ex.boxed[o] {
+				if v, ok := st.vars[o]; ok && v.Boxed {
+					nv := *v
+					nv.Boxed = false
+					return &nv
+				}
+			}
+		}
 	case *ast.SelectorExpr:
 		if ex.inSpec() {
 			recv := ex.expr(st, x.X)
@@ -824,6 +841,7 @@ func (ex *Exec) candidateFields(t types.Type) (out []struct {
 	structT types.Type
 	f       *types.Var
 }) {
+	taken := ex.W.addrTakenFields()
 	for _, u := range ex.W.Units {
 		scope := u.Pkg.Types.Scope()
 		for _, n := range scope.Names() {
@@ -836,7 +854,7 @@ func (ex *Exec) candidateFields(t types.Type) (out []struct {
 				continue
 			}
 			for i := 0; i < s.NumFields(); i++ {
-				if types.Identical(s.Field(i).Type(), t) {
+				if types.Identical(s.Field(i).Type(), t) && taken[s.Field(i)] {
 					out = append(out, struct {
 						structT types.Type
 						f       *types.Var
@@ -1155,4 +1173,30 @@ func (ex *Exec) typeAssert(st *State, e *ast.TypeAssertExpr, commaOk bool) []*Va
 		st.assume(okT)
 	}
 	return []*Val{res, {T: tBool, Term: okT}}
+}
+
+// addrTakenFields: struct fields whose address is taken (&x.f) somewhere in
+// the loaded packages; only those can be the target of a pointer-to-field.
+func (w *World) addrTakenFields() map[*types.Var]bool {
+	if w.addrTaken != nil {
+		return w.addrTaken
+	}
+	w.addrTaken = map[*types.Var]bool{}
+	for _, u := range w.Units {
+		for _, f := range u.Pkg.Syntax {
+			ast.Inspect(f, func(x ast.Node) bool {
+				if ue, ok := x.(*ast.UnaryExpr); ok && ue.Op == token.AND {
+					if sel, ok := ast.Unparen(ue.X).(*ast.SelectorExpr); ok {
+						if si := u.Pkg.TypesInfo.Selections[sel]; si != nil && si.Kind() == types.FieldVal {
+							if v, ok := si.Obj().(*types.Var); ok {
+								w.addrTaken[v] = true
+							}
+						}
+					}
+				}
+				return true
+			})
+		}
+	}
+	return w.addrTaken
 }
